@@ -20,6 +20,6 @@ NAME=$(basename "$DRV" | sed 's/\.[a-z]*$//')
 case "$DRV" in
   *.cc) g++ $CFLAGS -DLIBCONFIGXX_STATIC -c "$REPO/lib/libconfigcpp.c++" -o "$OUT/libconfigcpp.o"
         g++ $CFLAGS -DLIBCONFIGXX_STATIC "$HERE/$DRV" $OBJS "$OUT/libconfigcpp.o" "$@" -o "$OUT/$NAME" ;;
-  *)    gcc $CFLAGS "$HERE/$DRV" $OBJS "$@" -o "$OUT/$NAME" ;;
+  *)    gcc $CFLAGS "$HERE/$DRV" $OBJS "$@" -lpthread -o "$OUT/$NAME" ;;
 esac
 echo "$OUT/$NAME"
